@@ -129,6 +129,9 @@ func safeCall2(fn reflect.Value, args []reflect.Value) (r callResult) {
 
 // eqEither compares got field-wise with two acceptable values.
 func eqEither(got, a, b reflect.Value, path string) string {
+	if got.Kind() == reflect.Ptr && a.Kind() == reflect.Ptr && b.Kind() == reflect.Ptr && !got.IsNil() && !a.IsNil() && !b.IsNil() {
+		return eqEither(got.Elem(), a.Elem(), b.Elem(), path+".*")
+	}
 	if got.Kind() == reflect.Struct {
 		if !got.CanAddr() {
 			got = addressable(got)
